@@ -13,6 +13,7 @@ VARIABLES
   members,   \* [Addr -> Int]  Member{addr}: weight, -1 = not a member
   total,     \* TotalWeight{}
   listed,    \* set of [a, w]  ListMembers (all pages)
+  nlisted,   \* number of entries the walk over ListMembers returned (duplicates would show here)
   admin,     \* "none" once cleared
   hooks,     \* sequence of registered hook addresses
   stake,     \* [Addr -> Nat]  Staked{address}
@@ -24,8 +25,8 @@ VARIABLES
   hist,      \* hist[h] = [m, t]: membership and total at the start of block h, for h in 1..now.h
   ev
 
-svars == <<cfg, members, total, listed, admin, hooks, stake, claims, held, ubal, now, out>>
-vars == <<cfg, members, total, listed, admin, hooks, stake, claims, held, ubal, now, out, init0, hist, ev>>
+svars == <<cfg, members, total, listed, nlisted, admin, hooks, stake, claims, held, ubal, now, out>>
+vars == <<cfg, members, total, listed, nlisted, admin, hooks, stake, claims, held, ubal, now, out, init0, hist, ev>>
 
 RECURSIVE SumF(_, _)
 SumF(S, f) == IF S = {} THEN 0 ELSE LET x == CHOOSE y \in S : TRUE IN f[x] + SumF(S \ {x}, f)
@@ -46,6 +47,7 @@ Group == cfg.flavour = "group"
 C09_TotalIsSum ==
   /\ total = SumW(members)
   /\ listed = {[a |-> a, w |-> members[a]] : a \in {x \in Addr : members[x] >= 0}}
+  /\ nlisted = Cardinality(listed)                       \* every member listed exactly once
 \* the value that held at the start of block h
 StartOf(h) ==
   IF h > now.h THEN [m |-> members, t |-> total]
